@@ -15,11 +15,15 @@
                                                     (tsrcs: [[dtype code; values]...]; dtype codes: 1 bool, n intn,
                                                     100+n uintn, 200+n floatn, 300+n Sn; backing 0 memory / 1 HDF5)
    13 [13; [case; ...]]                             a history: the cases one after the other on the same Session
+   14 [14; [step; ...]]                             a history on named HDF5 columns (Model/SessionWorld.v):
+                                                    step [0; frame; name; column]  write to the path (frame, name)
+                                                    step [1; case; [[pos; frame; name]...]]  the case with its argument
+                                                    positions pos filled from the columns at those paths
    lu / ru carry the TYPE FORM of the hint (Model/FlagForm.v flag_of_wire): 0/1 Python bool, 10+v numpy bool, 20+z Python
    int, 30+z numpy integer, 40+v 0-d boolean array.
    pandas.merge is instantiated with the relational join of Spec/JoinSpec.v (its assumed behaviour). *)
 From Coq Require Import ZArith List Bool.
-From EV Require Import Res Arr Val Join JoinSpec MapStream MapStreamSpec SessionMerge SessionMergeSpec SessionMergeTyped FlagForm.
+From EV Require Import Res Arr Val Join JoinSpec MapStream MapStreamSpec SessionMerge SessionMergeSpec SessionMergeTyped FlagForm SessionWorld.
 Import ListNotations.
 Open Scope Z_scope.
 
@@ -178,8 +182,32 @@ Definition entry_C19_one (v:val) : val :=
   | _ => vbad
   end.
 
+(* a handle fills one argument position of the wire case with the column it points to *)
+Fixpoint set_nth_val (l:list val) (i:nat) (x:val) : list val :=
+  match l, i with
+  | [], _ => []
+  | _ :: t, O => x :: t
+  | h :: t, S j => h :: set_nth_val t j x
+  end.
+Definition fill_val (c:val) (i:nat) (col:list Z) : val :=
+  match c with VL l => VL (set_nth_val l i (vlist col)) | _ => c end.
+Definition as_ref (v:val) : option (nat * path) :=
+  match v with VL [VZ i; VZ f; VZ n] => Some (Z.to_nat i, (f, n)) | _ => None end.
+Definition as_step (v:val) : option (step val) :=
+  match v with
+  | VL [VZ 0; VZ f; VZ n; col] => match as_list col with Some c => Some (SWrite (f, n) c) | None => None end
+  | VL [VZ 1; c; VL refs] => match all_some (map as_ref refs) with Some r => Some (SCall c r) | None => None end
+  | _ => None
+  end.
+
 Definition entry_C19 (v:val) : val :=
   match v with
   | VL [VZ 13; VL cases] => VL (history entry_C19_one cases)
+  | VL [VZ 14; VL steps] =>
+    match all_some (map as_step steps) with
+    | Some st => VL (map (fun o => match o with Some r => r | None => vbad end)
+                         (world_history val val fill_val entry_C19_one [] st))
+    | None => vbad
+    end
   | _ => entry_C19_one v
   end.
